@@ -549,10 +549,10 @@ type c19End struct {
 
 type c19Flow struct {
 	parseForm bool // the handler calls r.ParseForm() itself: multipart fields are never merged into r.Form
-	handler string
-	authz   []c19End
-	exec    []c19End
-	seen    map[string]bool
+	handler   string
+	authz     []c19End
+	exec      []c19End
+	seen      map[string]bool
 }
 
 func (fl *c19Flow) add(list *[]c19End, e c19End) {
@@ -659,7 +659,7 @@ func leanEnds(es []c19End) string {
 }
 
 // genC19Flows emits the Src type and the dbFlows table for every distinct wrapped handler.
-func genC19Flows(g *Gen, p *c19Pkg, routes []c19Route) {
+func genC19Flows(g *Gen, p *c19Pkg, routes []c19Route) error {
 	g.P("")
 	g.P("/-- where a value a handler uses comes from, as an expression over the request. -/")
 	g.P("inductive Src where")
@@ -729,7 +729,11 @@ func genC19Flows(g *Gen, p *c19Pkg, routes []c19Route) {
 			extra = append(extra, fmt.Sprintf("  ⟨%s, %s, %s⟩", leanStr(fl.handler), leanEnds(fl.authz), leanEnds(fl.exec)))
 		}
 	}
-	if q, err := c19Load(g, "services/arrowflight/"); err == nil {
+	{
+		q, err := c19Load(g, "services/arrowflight/")
+		if err != nil {
+			return fmt.Errorf("C19: services/arrowflight: %v", err) // never skip silently: a missing flow must surface as failed generation
+		}
 		for _, k := range []string{"flightServer.DoPut", "flightServer.DoGet"} {
 			if fd := q.funcs[k]; fd != nil && fd.Body != nil {
 				fl := &c19Flow{handler: "arrowflight." + k, seen: map[string]bool{}}
@@ -738,7 +742,11 @@ func genC19Flows(g *Gen, p *c19Pkg, routes []c19Route) {
 			}
 		}
 	}
-	if q, err := c19Load(g, "services/writer/"); err == nil {
+	{
+		q, err := c19Load(g, "services/writer/")
+		if err != nil {
+			return fmt.Errorf("C19: services/writer: %v", err)
+		}
 		if fd := q.funcs["Service.Write"]; fd != nil && fd.Body != nil {
 			fl := &c19Flow{handler: "writer.Service.Write", seen: map[string]bool{}}
 			q.frame(fd, nil, 0).walk(fl, map[string]bool{})
@@ -758,4 +766,5 @@ func genC19Flows(g *Gen, p *c19Pkg, routes []c19Route) {
 			g.P("def src_%s : String := \"<missing>\"", fn)
 		}
 	}
+	return nil
 }
